@@ -92,6 +92,12 @@ def generate(ctx):
     for i in range(ctx.n(2, 8)):
         k = len(special) if i == 0 else rng.randrange(3, len(special))
         cases.append(dict(kind="module", mode="dunder", names=sorted(rng.sample(special, k))))
+    # names inherited through sibling / chained ffi.include() of out-of-line modules
+    for i in range(ctx.n(4, 16)):
+        table = [t for t in gen_table(rng, False) if t][:9]
+        if len(table) >= 2:
+            cases.append(dict(kind="module", mode="include", shape=["siblings", "chain"][i % 2],
+                              names=[t.decode() for t in table]))
     if ctx.thorough:
         for i in range(3):
             table = [t for t in gen_table(rng, False) if t]
